@@ -341,6 +341,7 @@ pub fn gen_nat(seed: u64, n: usize) -> Vec<Scenario> {
             let at = rng.random_range(0..path.hops.len().max(1));
             if let Some(h) = path.hops.get_mut(at) {
                 h.nat = 10 + d;
+                h.nat_keep_src = rng.random_bool(0.4);
             }
         }
         for h in &mut path.hops {
